@@ -256,3 +256,162 @@ fn case(srv: &mut Srv, seed: u64, res: &mut CaseResult) -> R<()> {
     }
     Ok(())
 }
+
+
+// ---------------------------------------------------------------------------
+// the same differential against the stand-alone binary (`xs serve`, src/main.rs wiring), driven over HTTP
+// ---------------------------------------------------------------------------
+
+struct Bin {
+    child: std::process::Child,
+}
+
+impl Drop for Bin {
+    fn drop(&mut self) {
+        let _ = self.child.kill();
+        let _ = self.child.wait();
+    }
+}
+
+fn start_bin(dir: &std::path::Path) -> Option<Bin> {
+    use std::process::{Command, Stdio};
+    let bin = crate::session::self_exe().parent()?.join("xs-real");
+    if !bin.exists() {
+        return None;
+    }
+    let child = Command::new(bin).arg("serve").arg(dir).stdin(Stdio::null()).stdout(Stdio::null()).stderr(Stdio::null()).spawn().ok()?;
+    let b = Bin { child };
+    for _ in 0..2000 {
+        if std::os::unix::net::UnixStream::connect(dir.join("sock")).is_ok() {
+            return Some(b);
+        }
+        std::thread::sleep(Duration::from_millis(5));
+    }
+    None
+}
+
+fn http_frames(sock: &std::path::Path) -> Vec<Frame> {
+    match crate::http::once(sock, &crate::http::Req::new("GET", "/"), Duration::from_secs(20)) {
+        Ok(r) => crate::http::ndjson(&r.body).into_iter().filter_map(|v| serde_json::from_value(v).ok()).collect(),
+        Err(_) => vec![],
+    }
+}
+
+fn http_post(sock: &std::path::Path, target: &str, body: &[u8], meta: Option<Value>) -> Option<Frame> {
+    use base64::Engine as _;
+    let mut req = crate::http::Req::new("POST", target).body(body);
+    if let Some(m) = meta {
+        req = req.header("xs-meta", base64::engine::general_purpose::STANDARD.encode(serde_json::to_string(&m).unwrap()).as_bytes());
+    }
+    let r = crate::http::once(sock, &req, Duration::from_secs(20)).ok()?;
+    serde_json::from_slice(&r.body).ok()
+}
+
+fn bin_probe(sock: &std::path::Path, ctxs: &[Scru128Id], round: usize) -> Answers {
+    let mark = http_post(sock, "/mark", b"", None);
+    let mut sent: Vec<Frame> = vec![];
+    for c in ctxs {
+        if let Some(f) = http_post(sock, &format!("/probe?context={}", c), b"", Some(json!({"round": round}))) {
+            sent.push(f);
+        }
+        if let Some(f) = http_post(sock, &format!("/c1.call?context={}", c), b"", Some(json!({"arg": format!("p{}", round)}))) {
+            sent.push(f);
+        }
+    }
+    std::thread::sleep(Duration::from_millis(1700));
+    let mut a = Answers::default();
+    let mark_id = mark.map(|m| m.id).unwrap_or(ZERO_CONTEXT);
+    for f in http_frames(sock).iter().filter(|f| f.id > mark_id) {
+        if let Some(fid) = meta_str(f, "frame_id") {
+            if let Some(p) = sent.iter().find(|s| s.id.to_string() == fid) {
+                if p.topic == "probe" && f.topic.ends_with(".out") {
+                    if let Some(h) = meta_str(f, "handler_id") {
+                        a.handlers.insert((ctx_label(&f.context_id, ctxs), f.topic.trim_end_matches(".out").to_string(), h.to_string()));
+                    }
+                } else if p.topic.ends_with(".call") && f.topic.ends_with(".recv") {
+                    if let Some(cid) = meta_str(f, "command_id") {
+                        a.commands.insert((ctx_label(&f.context_id, ctxs), "c1".to_string()), cid.to_string());
+                    }
+                }
+            }
+        }
+        if f.topic.ends_with(".start") {
+            if let Some(s) = meta_str(f, "source_id") {
+                a.generators.insert((ctx_label(&f.context_id, ctxs), f.topic.trim_end_matches(".start").to_string(), s.to_string()));
+            }
+        }
+    }
+    a
+}
+
+pub fn run_binary_case(seed: u64) -> CaseResult {
+    let mut res = CaseResult::default();
+    let mut rng = Rng::new(seed);
+    let dir = crate::session::work_dir("c17bin");
+    let sock = dir.join("sock");
+    let Some(mut bin) = start_bin(&dir) else {
+        res.inconclusive = Some("xs-real serve did not come up".into());
+        crate::session::rm_dir(&dir);
+        return res;
+    };
+    let a = http_post(&sock, "/xs.context", b"", None).map(|f| f.id);
+    let Some(a) = a else {
+        res.inconclusive = Some("could not register a context over HTTP".into());
+        crate::session::rm_dir(&dir);
+        return res;
+    };
+    let ctxs = [ZERO_CONTEXT, a];
+    // the same names in both contexts; one handler unregistered again; one generator refused
+    for (i, c) in ctxs.iter().enumerate() {
+        http_post(&sock, &format!("/h1.register?context={}", c), handler_script(&format!("bin{}", i)).as_bytes(), None);
+        http_post(&sock, &format!("/g{}.spawn?context={}", i, c), format!("\"tick-bin{}\"", i).as_bytes(), None);
+    }
+    http_post(&sock, &format!("/h2.register?context={}", a), handler_script("gone").as_bytes(), None);
+    http_post(&sock, "/c1.define", command_script("bin").as_bytes(), None);
+    std::thread::sleep(Duration::from_millis(400));
+    http_post(&sock, &format!("/h2.unregister?context={}", a), b"", None);
+    http_post(&sock, "/g9.spawn", b"", None); // refused: no content (its latest spawn failed: must not come up)
+    std::thread::sleep(Duration::from_millis(600));
+    let before = bin_probe(&sock, &ctxs, 0);
+    let d = json!({"binary": "xs-real serve", "before": {"handlers": before.handlers, "generators": before.generators, "commands": before.commands.iter().map(|(k, v)| json!([k.0, k.1, v])).collect::<Vec<_>>()}});
+    if before.handlers.len() != 2 || before.generators.len() != 2 || before.commands.is_empty() {
+        // the stand-alone server does not run what was registered: the wiring of main::serve is what this leg is about
+        res.find(&["C17"], "binary/registered-components-do-not-answer-before-any-restart", d.clone());
+    }
+    let restarts = 1 + rng.below(2);
+    let mut prev = before;
+    for r in 0..restarts {
+        let pre_ids: BTreeSet<String> = http_frames(&sock).iter().map(|f| f.id.to_string()).collect();
+        drop(bin); // SIGKILL
+        bin = match start_bin(&dir) {
+            Some(b) => b,
+            None => {
+                res.find(&["C17", "C04"], "binary/server-does-not-come-up-after-sigkill", d.clone());
+                crate::session::rm_dir(&dir);
+                return res;
+            }
+        };
+        std::thread::sleep(Duration::from_millis(700));
+        let after = bin_probe(&sock, &ctxs, r + 1);
+        if after != prev {
+            res.find(&["C17"], "binary/answers-differ-across-restart", json!({"case": d, "restart": r, "before": {"handlers": prev.handlers, "generators": prev.generators}, "after": {"handlers": after.handlers, "generators": after.generators, "commands": after.commands.iter().map(|(k, v)| json!([k.0, k.1, v])).collect::<Vec<_>>()}}));
+        }
+        for f in http_frames(&sock).iter().filter(|f| !pre_ids.contains(&f.id.to_string())) {
+            if let Some(fid) = meta_str(f, "frame_id") {
+                if pre_ids.contains(fid) && (f.topic.ends_with(".out") || f.topic.ends_with(".recv") || f.topic.ends_with(".complete")) {
+                    res.find(&["C17", "C19"], "binary/historical-trigger-or-call-re-executed-after-restart", json!({"case": d, "new_frame": f}));
+                }
+            }
+        }
+        res.count("restarts", 1);
+        res.count("restarts.binary_sigkill", 1);
+        res.count("probe_answers_compared", (after.handlers.len() + after.generators.len() + after.commands.len()) as u64);
+        prev = after;
+    }
+    drop(bin);
+    res.nontrivial = true;
+    res.hash = fnv(&format!("bin{}", seed % 4));
+    res.sample = Some(d);
+    crate::session::rm_dir(&dir);
+    res
+}
